@@ -101,9 +101,11 @@ class Prov:
     """Backward provenance for one body. Origins are tuples:
        ('arg', local, fields) | ('const', key) | ('call', bb) | ('agg', name) | ('op', opname) | ('undef', local) | ('unknown', what)"""
 
-    def __init__(self, body, adapters=IDENTITY_ADAPTERS, extra_adapters=()):
+    def __init__(self, body, adapters=IDENTITY_ADAPTERS, extra_adapters=(), multi=None, adapter_pred=None):
         self.b = body
         self.adapters = set(adapters) | set(extra_adapters)
+        self.multi = multi or {}          # callee def -> argument indices whose origins the result unions
+        self.adapter_pred = adapter_pred  # optional predicate(term) -> bool (treat as receiver-preserving)
         self.memo = {}
 
     def is_adapter(self, cs):
@@ -150,11 +152,19 @@ class Prov:
                 if d.get("p"):
                     # call writes into a projection of l
                     pass
-                if self.is_adapter(node) and node["args"]:
+                cdef = (node.get("callee") or {}).get("def")
+                if cdef in self.multi and node["args"]:
+                    for ai in self.multi[cdef]:
+                        if ai < len(node["args"]):
+                            out |= self.operand(node["args"][ai], (), seen)
+                    out.add(("via", bb))
+                elif (self.is_adapter(node) or (self.adapter_pred is not None and self.adapter_pred(node))) and node["args"]:
                     out |= self.operand(node["args"][0], (), seen)
                     out.add(("via", bb))
                 else:
                     out.add(("call", bb))
+                    if fields:
+                        out.add(("callf", bb, fields))
                 continue
             if node["k"] == "setdiscr":
                 continue
